@@ -141,3 +141,45 @@ pub fn guarded<R>(ctx: &Ctx, describe: Describe<'_>, f: impl FnOnce() -> R) -> O
         }
     }
 }
+
+/// Result of running a closure in a forked child process.
+#[derive(Debug, PartialEq)]
+pub enum Child {
+    Exited(i32),
+    Signaled(i32),
+    ForkFailed,
+}
+
+/// Runs `f` in a forked child (default signal dispositions, no case attribution) and reports how
+/// the child ended. Only call from a single-threaded phase.
+pub fn in_child(f: impl FnOnce() -> i32) -> Child {
+    let _ = std::io::Write::flush(&mut std::io::stdout());
+    // SAFETY: fork + immediate _exit in the child
+    unsafe {
+        let pid = libc::fork();
+        if pid < 0 {
+            return Child::ForkFailed;
+        }
+        if pid == 0 {
+            for sig in [libc::SIGSEGV, libc::SIGBUS, libc::SIGABRT, libc::SIGFPE, libc::SIGILL] {
+                let mut sa: libc::sigaction = std::mem::zeroed();
+                sa.sa_sigaction = libc::SIG_DFL;
+                libc::sigaction(sig, &sa, std::ptr::null_mut());
+            }
+            CUR.with(|c| c.set(None));
+            IN_GUARD.with(|g| g.set(true)); // silence the panic hook
+            let code = match catch_unwind(AssertUnwindSafe(f)) {
+                Ok(c) => c,
+                Err(_) => 101,
+            };
+            libc::_exit(code);
+        }
+        let mut status = 0;
+        libc::waitpid(pid, &mut status, 0);
+        if libc::WIFSIGNALED(status) {
+            Child::Signaled(libc::WTERMSIG(status))
+        } else {
+            Child::Exited(libc::WEXITSTATUS(status))
+        }
+    }
+}
